@@ -120,6 +120,28 @@ theorem file_roundtrip_commutes (version : String) (children : Nodes) (edges : L
     exact hk
   exact commute_keyed _ g' τ hinf hg'inf k n0 n0 hk hk'
 
+/-- the verdict of one edge depends on the node dictionary through look-ups only -/
+theorem checkEdge_congr (n1 n2 : Nodes) (h : ∀ k, lookup k n1 = lookup k n2) (e : Edge) : checkEdge n1 e = checkEdge n2 e := by
+  simp only [checkEdge, h]
+
+/-- **The type check commutes with the file round trip**: for a flat graph of file-exact nodes — consistent or not — whatever
+`read(write(g))` returns gets the same verdict as `g`: `True`, or the same first error in edge order. -/
+theorem check_file_roundtrip (version : String) (children : Nodes) (edges : List Edge) (it ot : Val)
+    (hkeys : (children.map Prod.fst).Nodup)
+    (hex : ∀ k n, lookup k children = some n → C01.FileExact n)
+    (f : H5) (hwr : write version (Node.mk "NIRGraph" [] it ot (.dict []) children edges) = .ok f)
+    (g' : Node) (hrd : read f = .ok g') :
+    checkTypes g' = checkTypes (Node.mk "NIRGraph" [] it ot (.dict []) children edges) := by
+  obtain ⟨cs, hg, hperm⟩ := C01.graph_file_exact version children edges it ot hkeys hex f hwr g' hrd
+  have hl : ∀ k, lookup k cs = lookup k children := fun k => lookup_perm hperm ((hperm.map Prod.fst).nodup_iff.mpr hkeys) k
+  have hfe : ∀ es : List Edge, forEachEdge (checkEdge cs) es = forEachEdge (checkEdge children) es := by
+    intro es
+    induction es with
+    | nil => rfl
+    | cons e rest ih => simp only [forEachEdge, checkEdge_congr cs children hl e, ih]
+  rw [hg]
+  simp only [checkTypes, mkGraph, Node.children, Node.edges, hfe]
+
 /-! ## Non-vacuity: the Input → LIF → Output graph of `C01` (with a recurrent edge) meets every hypothesis -/
 
 def exG : Node := Node.mk "NIRGraph" [] (graphInputType C01.exChildren) (graphOutputType C01.exChildren) (.dict [])
